@@ -67,6 +67,9 @@ func (p *poolB) Init(args ...any) (act.PoolOptions, error) {
 				pl := fmt.Sprint(m)
 				p.from[pl] = from
 				p.by[pl] = append(p.by[pl], name)
+				if g := p.cfg.gates[k]; g != nil && pl == "park" {
+					g.Wait() // a slow worker: the caller gives up first
+				}
 				return "re:" + pl, nil
 			}}}
 	}
@@ -208,6 +211,71 @@ func init() {
 			w.ex.Thread("G1", func() { w.n.Send(w.pids["C1"], "go") })
 			w.ex.Thread("G2", func() { w.n.Send(w.pids["C2"], "go") })
 			w.Check = func() { c19check(w, pb, sent, false, int(size)) }
+		})
+	}
+	// a client whose earlier prioritised requests and sends (successful or failed) are over: what it sends to the pool
+	// afterwards is ordinary traffic again and goes to a worker, not to the pool process itself
+	for _, pre := range []string{"failed-call-high", "failed-call-max", "ok-call-high", "failed-send-high", "ok-send-max"} {
+		pre := pre
+		c19Scenario("size2-client-after-"+pre, 1, 2, func(w *World) {
+			pb, pool, _ := w.spawnPool(poolCfg{size: 2})
+			other := w.spawnProbe("X", probeCfg{onCall: func(p *probe, from gen.PID, ref gen.Ref, m any) (any, error) { return "ok", nil }}, gen.ProcessOptions{})
+			gone := gen.PID{Node: w.n.Name(), ID: 999999, Creation: w.n.Creation()}
+			var sent []c19sent
+			w.spawnProbe("C1", probeCfg{onMsg: func(p *probe, from gen.PID, m any) error {
+				if m != "go" {
+					return nil
+				}
+				switch pre {
+				case "failed-call-high":
+					p.CallWithPriority(gone, "x", gen.MessagePriorityHigh)
+				case "failed-call-max":
+					p.CallWithPriority(gone, "x", gen.MessagePriorityMax)
+				case "ok-call-high":
+					p.CallWithPriority(other, "x", gen.MessagePriorityHigh)
+				case "failed-send-high":
+					p.SendWithPriority(gone, "x", gen.MessagePriorityHigh)
+				case "ok-send-max":
+					p.SendWithPriority(other, "x", gen.MessagePriorityMax)
+				}
+				sent = append(sent, c19sent{"m1", "C1", p.Send(pool, "m1"), nil, false})
+				v, err := p.CallWithTimeout(pool, "q1", 1)
+				sent = append(sent, c19sent{"q1", "C1", err, v, true})
+				sent = append(sent, c19sent{"m2", "C1", p.Send(pool, "m2"), nil, false})
+				return nil
+			}}, gen.ProcessOptions{})
+			w.ex.Thread("G1", func() { w.n.Send(w.pids["C1"], "go") })
+			w.Check = func() { c19check(w, pb, sent, false, 2) }
+		})
+	}
+	// a slow worker answers after the caller gave up: the late reply is dropped and the caller's following requests
+	// through the pool are answered with the replies made for them
+	for _, size := range []int64{1, 2} {
+		size := size
+		c19Scenario(fmt.Sprintf("size%d-late-reply-then-next-requests", size), 1, 2, func(w *World) {
+			g := &vsched.Gate{}
+			pb, pool, _ := w.spawnPool(poolCfg{size: size, gates: map[int]*vsched.Gate{1: g}})
+			var sent []c19sent
+			var first error
+			w.spawnProbe("C1", probeCfg{onMsg: func(p *probe, from gen.PID, m any) error {
+				if m != "go" {
+					return nil
+				}
+				_, first = p.CallWithTimeout(pool, "park", 1)
+				g.Open()
+				for _, q := range []string{"q2", "q3", "q4"} {
+					v, err := p.CallWithTimeout(pool, q, 1)
+					sent = append(sent, c19sent{q, "C1", err, v, true})
+				}
+				return nil
+			}}, gen.ProcessOptions{})
+			w.ex.Thread("G1", func() { w.n.Send(w.pids["C1"], "go") })
+			w.Check = func() {
+				if first != gen.ErrTimeout {
+					w.ex.Fail("harness-expectation", "the request to the parked worker returned %v, expected a timeout", first)
+				}
+				c19check(w, pb, sent, false, int(size))
+			}
 		})
 	}
 	c19Scenario("size2-calls", 1, 2, func(w *World) {
